@@ -116,19 +116,33 @@ Proof.
   - cbn [concat sumN]. rewrite Nlen_app. rewrite IH by lia. lia.
 Qed.
 
+Lemma bind_Ok {A B} (v : A) (f : A -> res B) : bind (Ok v) f = f v.
+Proof. reflexivity. Qed.
+
+Lemma sl_fields_x fs ws k site a b x :
+  has_widths fs ws -> (k < length ws)%nat ->
+  a = sumN (firstn k ws) -> b = sumN (firstn (S k) ws) -> nth k fs [] = x ->
+  sl site a b (concat fs) = Ok x.
+Proof. intros HW Hk Ha Hb <-. now apply (sl_fields fs ws k). Qed.
+
 Ltac field_side := first [reflexivity | cbn [length firstn sumN nth]; lia].
 
-(* rewrite the k-th field's slice *)
+(* rewrite the k-th field's slice; the bind is reduced by an explicit rewrite
+   (a [cbn] on a long chain of binds makes the kernel's conversion check at Qed
+   exponential in the length of the chain) *)
 Ltac field k :=
   match goal with
   | HW : has_widths ?fs ?ws |- context [sl ?site ?a ?b (concat ?fs)] =>
-      rewrite (sl_fields fs ws k site a b HW) by field_side; cbn [nth bind]
+      let x := eval cbv [nth] in (nth k fs []) in
+      rewrite (sl_fields_x fs ws k site a b x HW) by field_side;
+      rewrite bind_Ok; cbv beta
   end.
 
 Ltac field_ix k :=
   match goal with
   | HW : has_widths ?fs ?ws |- context [ix ?site ?a (concat ?fs)] =>
-      erewrite (ix_fields fs ws k site a _ HW) by (first [field_side | cbn [nth]; reflexivity]); cbn [bind]
+      erewrite (ix_fields fs ws k site a _ HW) by (first [field_side | cbn [nth]; reflexivity]);
+      rewrite bind_Ok; cbv beta
   end.
 
 (* lengths *)
@@ -776,7 +790,7 @@ Proof.
   destruct (bt =? BT_HEADER) eqn:Ebt; cbn [negb].
   - rewrite (has_widths_total _ _ (block_has_widths _ b [] (be_enc_Nlen 4 0) ltac:(assumption)
        ltac:(assumption) ltac:(assumption) ltac:(assumption))) by reflexivity.
-    cbn [sumN]. rewrite Nlen_nil. lia.
+    cbn [sumN]. change (Nlen (@nil N)) with 0. lia.
   - rewrite (has_widths_total _ _ (block_has_widths _ b _ (be_enc_Nlen 4 _) ltac:(assumption)
        ltac:(assumption) ltac:(assumption) ltac:(assumption))) by reflexivity.
     cbn [sumN]. rewrite size_txs_concat by assumption. lia.
